@@ -17,6 +17,7 @@ pub mod c11;
 pub mod c12;
 pub mod c13;
 pub mod c14;
+pub mod c15;
 pub mod c16;
 pub mod c17;
 pub mod c18;
@@ -32,7 +33,7 @@ pub struct Check {
 }
 
 pub fn all() -> Vec<Check> {
-    vec![c01::CHECK, c02::CHECK, c03::CHECK, c04::CHECK, c05::CHECK, c06::CHECK, c07::CHECK, c08::CHECK, c09::CHECK, c10::CHECK, c11::CHECK, c12::CHECK, c13::CHECK, c14::CHECK, c16::CHECK, c17::CHECK, c18::CHECK, c19::CHECK]
+    vec![c01::CHECK, c02::CHECK, c03::CHECK, c04::CHECK, c05::CHECK, c06::CHECK, c07::CHECK, c08::CHECK, c09::CHECK, c10::CHECK, c11::CHECK, c12::CHECK, c13::CHECK, c14::CHECK, c15::CHECK, c16::CHECK, c17::CHECK, c18::CHECK, c19::CHECK]
 }
 
 /// entry point of worker subprocesses (C08, C18, C20)
@@ -40,6 +41,7 @@ pub fn worker_main(args: &[String]) -> i32 {
     match args.first().map(|s| s.to_lowercase()).as_deref() {
         Some("c07") => c07::worker(&args[1..]),
         Some("c08") => c08::worker(&args[1..]),
+        Some("c15") => c15::worker(&args[1..]),
         _ => 2,
     }
 }
